@@ -12,6 +12,9 @@ package nsqd
 //@ ghost lastBackendDepthQueue BackendQueue
 //@ ghost lastChannelDepth int64
 //@ ghost lastTopicDepth int64
+//@ ghost r5FListedClients int
+//@ ghost r5FChanStatsFor *Channel
+//@ ghostgroup lastChannelDepth, r5FListedClients, r5FChanStatsFor
 
 //@ func (c *Channel) Depth() int64
 //@   props C13
@@ -45,9 +48,13 @@ package nsqd
 // listed channel has a stream. quantile.New / Merge: assumed contracts scoped to nsqd (lib/trusted/r5J.spec; New was `benign` before), recorded in r5JQ* ghosts.
 // Touches no counter or queue of the topic or its channels (checked frame: the lock-protected map only, as before).
 //@ func (t *Topic) AggregateChannelE2eProcessingLatency() *quantile.Quantile
-//@   props C13
+//@   props C13 C08
 //@   nochan
 //@   requires t != nil && t.nsqd != nil
+//   (round 5, area F; C08 "without ... deadlocking the daemon") the function read-locks the topic itself: sync.RWMutex forbids a second
+//   RLock by a goroutine that already holds one (a writer queued in between - GetChannel / DeleteExistingChannel - blocks the second
+//   RLock for ever while waiting for the first to be released): the caller must NOT hold the topic lock, in any mode.
+//@   requires[topic-lock-not-held] !holds(t, "RWMutex")
 //@   ensures[nil-iff-nothing-merged] (result == nil) <==> (r5JQMerges == old(r5JQMerges))
 //@   ensures[one-new-aggregate-as-configured] result != nil ==> fresh(result) && r5JQNews == old(r5JQNews) + 1 && r5JQNewResult == result &&
 //@        r5JQNewWindow == curOpts(t.nsqd).E2EProcessingLatencyWindowTime && r5JQNewPercentiles == curOpts(t.nsqd).E2EProcessingLatencyPercentiles
@@ -80,23 +87,34 @@ package nsqd
 //@   ensures[name] result.ChannelName == c.name
 //@   ensures[depth] result.Depth == lastChannelDepth && result.BackendDepth == lastBackendDepth && lastBackendDepthQueue == c.backend
 //@   ensures[deferred-count] result.DeferredCount == atlock(len(c.deferredMessages))
+//   (round 5, area F) the in-flight count is the size of the in-flight map inside ITS critical section (the first of the two)
+//@   ensures[in-flight-count] result.InFlightCount == atlock(len(c.inFlightMessages), "inFlightMutex")
 //@   ensures[message-count] result.MessageCount == old(c.messageCount)
 //@   ensures[topology-counts] result.ZoneLocalMsgCount == old(c.zoneLocalMsgCount) && result.RegionLocalMsgCount == old(c.regionLocalMsgCount) && result.GlobalMsgCount == old(c.globalMsgCount)
 //@   ensures[requeue-count] result.RequeueCount == old(c.requeueCount)
 //@   ensures[timeout-count] result.TimeoutCount == old(c.timeoutCount)
 //@   ensures[clients] result.ClientCount == clientCount && result.Clients == clients
+//   (round 5, area F) the latency report is always present (statsdLoop and the text report dereference it)
+//@   ensures[latency-report-present] result.E2eProcessingLatency != nil
 //@   ensures[paused] result.Paused == (old(c.paused) == 1)
 //@   ensures[non-negative] result.InFlightCount >= 0 && result.DeferredCount >= 0 && result.MessageCount >= 0 && result.RequeueCount >= 0 && result.TimeoutCount >= 0
 //@   ensures[counters-untouched] c.messageCount == old(c.messageCount) && c.requeueCount == old(c.requeueCount) && c.timeoutCount == old(c.timeoutCount)
 //@   modifies c.inFlightMessages, c.inFlightPQ, mapstore(map[MessageID]*Message), c.deferredMessages, c.deferredPQ, mapstore(map[MessageID]*pqueue.Item), lastBackendDepth, lastBackendDepthQueue, lastChannelDepth
+//   (round 5, area F) r5FListedClients accumulates the number of client reports handed over for a channel entry (GetStats: every report
+//   made is listed); r5FChanStatsFor = the channel of the most recent entry. Grouped with lastChannelDepth: no caller frame changes.
+//@   onreturn r5FListedClients := r5FListedClients + len(clients)
+//@   onreturn r5FChanStatsFor := c
 
 //@ func NewTopicStats(t *Topic, channels []ChannelStats) TopicStats
-//@   props C13
+//@   props C13 C08
 //@   requires t != nil && t.backend != nil
 //   (round 5, area J) precondition of the now VERIFIED AggregateChannelE2eProcessingLatency (it reads the latency options through t.nsqd)
 //@   requires[daemon] t.nsqd != nil
+//   (round 5, area F) it calls AggregateChannelE2eProcessingLatency, which read-locks the topic: see there
+//@   requires[topic-lock-not-held] !holds(t, "RWMutex")
 //@   ensures[name] result.TopicName == t.name
 //@   ensures[channels] result.Channels == channels
+//@   ensures[latency-report-present] result.E2eProcessingLatency != nil
 //@   ensures[depth] result.Depth == lastTopicDepth && result.BackendDepth == lastBackendDepth && lastBackendDepthQueue == t.backend
 //@   ensures[message-count] result.MessageCount == old(t.messageCount)
 //@   ensures[message-bytes] result.MessageBytes == old(t.messageBytes)
@@ -118,5 +136,8 @@ package nsqd
 //@   ensures[topology-counts] unbox(result, "ClientV2Stats").ZoneLocalMsgCount == old(c.ZoneLocalMsgCount) && unbox(result, "ClientV2Stats").RegionLocalMsgCount == old(c.RegionLocalMsgCount) && unbox(result, "ClientV2Stats").GlobalMsgCount == old(c.GlobalMsgCount)
 //@   ensures[state] unbox(result, "ClientV2Stats").State == old(c.State) && unbox(result, "ClientV2Stats").SampleRate == old(c.SampleRate)
 //@   ensures[version] unbox(result, "ClientV2Stats").Version == "V2"
-// Pure look-ups (switch over a constant table) used for the TLS columns of the report.
-//@ benign (*github.com/nsqio/nsq/nsqd.prettyConnectionState).GetCipherSuite, (*github.com/nsqio/nsq/nsqd.prettyConnectionState).GetVersion
+//   (round 5, area F) frame: reporting a connection changes no counter of any object (the only ghost touched is the record of the TLS
+//   library call); GetStats relies on this for every entry it has already built.
+//@   modifies r4EPeerCerts
+// Pure look-ups (switch over a constant table) used for the TLS columns of the report: since round 5 (area F) VERIFIED contracts in
+// zz_contracts_r5F_verif.go (the `benign` entry that stood here is gone).
